@@ -158,7 +158,7 @@ def build():
     u.add(u.item(CL, 'struct', 'WeakLinkFilter'))
     u.add(SPEC)
     u.add(impl_block('WeakLinkFilter', [
-        u.fn(CL, 'classify', impl='WeakLinkFilter', ret='r', requires=REQ, ensures=ENS, props=('C17',),
+        u.fn(CL, 'classify', impl='WeakLinkFilter', ret='r', requires=REQ, ensures=ENS, props=(),
              loops={0: dict(inv=I0, dec='conns.len() - conn_nx'), 1: dict(inv=I1, dec='conns.len() - conn_nx'),
                     2: dict(inv=I2, dec='conns.len() - conn_nx'), 3: dict(inv=I3, dec='conns.len() - conn_nx')},
              splices=[
@@ -172,5 +172,5 @@ def build():
              ]),
     ]))
     for f in ('derive_max_delay_budget', 'target_best_delay_ms', 'target_safe_delay_ms', 'target_max_delay_ms', 'pick_tier'):
-        u.add(u.fn(CL, f, ret='r', props=('C17',), ensures=(['500 <= r <= 5000'] if f == 'derive_max_delay_budget' else [])))
+        u.add(u.fn(CL, f, ret='r', props=(), ensures=(['500 <= r <= 5000'] if f == 'derive_max_delay_budget' else [])))
     return u
